@@ -191,6 +191,8 @@ def run_claim_trace(case: dict, clauses: set[str], *, check_from: int = 0) -> tu
     """case = {text, mode, ops}: replay claim calls on a fresh parse; clauses select the oracles:
     'text' (C04), 'owner' (C14 invariant), 'tree' (C05 check_tree), 'reads' (C04 read sweep)."""
     res = core.CaseResult()
+    from . import store as store_mod
+    store_mod.set_load_factor(case.get('lf'))
     root = docs.try_parse(case['text'], M.File, case.get('mode', True))
     if root is None:
         res.outcomes['rejected'] += 1
@@ -212,6 +214,8 @@ def run_claim_trace(case: dict, clauses: set[str], *, check_from: int = 0) -> tu
         where = f'{text!r} (auto_claim_comments={case.get("mode", True)}) after {case["ops"][:step + 1]}: '
         site = op[2] if op[0] == 'claim' else f'{op[2]}.{op[3]}'
         sub = {'text': text, 'mode': case.get('mode', True), 'ops': case['ops'][:step + 1]}
+        if case.get('lf') is not None:
+            sub['lf'] = case['lf']
         if exc is not None and not isinstance(exc, ValueError):
             res.fail(f'C04/claim-call-raises[{site}]', where + f'{type(exc).__name__}: {exc}', sub)
             return res, None
@@ -258,6 +262,8 @@ def expand_claims(args: tuple) -> tuple:
     case, hist, clauses = args
     shard = core.Shard()
     base = {'text': case['text'], 'mode': case.get('mode', True)}
+    if case.get('lf') is not None:
+        base['lf'] = case['lf']
     r0, root = run_claim_trace(dict(base, ops=hist), clauses, check_from=len(hist))
     succ = []
     if root is None:
@@ -280,6 +286,8 @@ def expand_claims(args: tuple) -> tuple:
                 if r.sample is None:
                     r.sample = {'text': c['text'], 'mode': c['mode'], 'ops': c['ops'], 'attribution': sorted(attribution(end).items())}
         shard.add(c, r)
+    from . import store as store_mod
+    store_mod.set_load_factor(None)
     return succ, shard
 
 
